@@ -407,7 +407,7 @@ func (w *worker) runOne(in *Input) Result {
 	if in.Entry == "bundle" {
 		res.Anomalies = nil
 	}
-	if in.Trace && returned && in.Entry != "globals" {
+	if in.Trace && returned && in.Entry != "globals" && in.Entry != "bundle" {
 		// (ParseGlobals makes one parse.Expr call per line: its hook state is
 		// judged per call by the tracer, but only single-call traces go to TLC)
 		res.Events = encodeEvents(events)
